@@ -225,8 +225,17 @@ func buildURL(t *rapid.T, angle bool) (string, bool) {
 		}
 	}
 	fancy := rapid.IntRange(0, 3).Draw(t, "fancy") != 0
+	// long spelling: every character of the scheme as a numeric reference with leading zeros (the scheme alone takes
+	// 100+ source bytes: whatever looks only at the head of the raw destination sees no scheme at all)
+	long := rapid.IntRange(0, 9).Draw(t, "longspelling") == 0
 	for i := 0; i < len(scheme); i++ {
-		if fancy {
+		if long {
+			if rapid.Bool().Draw(t, "hexref") {
+				sb.WriteString(fmt.Sprintf("&#x%0*x;", rapid.IntRange(2, 6).Draw(t, "lzx"), scheme[i]))
+			} else {
+				sb.WriteString(fmt.Sprintf("&#%0*d;", rapid.IntRange(3, 7).Draw(t, "lzd"), scheme[i]))
+			}
+		} else if fancy {
 			sb.WriteString(spell(t, scheme[i], angle))
 			if rapid.IntRange(0, 11).Draw(t, "emb") == 0 {
 				if angle && rapid.Bool().Draw(t, "litws2") {
